@@ -8,6 +8,8 @@ import io
 import itertools
 import json
 import math
+
+import numpy as np
 import multiprocessing
 import random
 
@@ -170,6 +172,11 @@ def angle_event(a1, a2, a3):
             q = angle_params(a3, a2, a1)
             b12, b23 = guess_bond_order(a1, a2), guess_bond_order(a2, a3)
             pe = angle_params(a1, a2, a3, bond_orders=[1.5, 2])
+            # explicit orders in the forms callers use: plain ints, floats, one of them left to the guess; list / tuple / array
+            h = sum(ord(c) for c in a1 + a2 + a3)
+            x1, x2 = [(1, 2), (2, 2), (1, 1), (2, 1), (1.0, 2.0), (1, 1.5), (None, 2), (1, None)][h % 8]
+            cont = [list, tuple, (lambda t: np.array(t) if None not in t else list(t))][(h // 8) % 3]
+            pv = angle_params(a1, a2, a3, bond_orders=cont((x1, x2)))
         ev["style"] = p[0]
         K, c0, c1, c2 = ref_angle(a1, a2, a3, b12, b23)
         if p[0] == "cosine/periodic":
@@ -182,6 +189,8 @@ def angle_event(a1, a2, a3):
         elif not (math.isfinite(p[1]) and p[1] > 0):
             ev["num"] = "force constant not positive and finite"
         elif not close(pe[1], ref_angle(a1, a2, a3, 1.5, 2)[0]):
+            ev["num"] = "differs from the formula (explicit bond orders)"
+        elif not close(pv[1], ref_angle(a1, a2, a3, b12 if x1 is None else x1, b23 if x2 is None else x2)[0]):
             ev["num"] = "differs from the formula (explicit bond orders)"
         if p[0] != q[0] or len(p) != len(q) or not all(close(x, y, 1e-12) for x, y in zip(p[1:], q[1:])):
             ev["sym"] = "no"
